@@ -137,6 +137,12 @@ func c17(ctx *core.Ctx) {
 		r := ctx.Rand(ti, "table")
 		go17 := commonGenOpts()
 		go17.OddMethods = true
+		// every fifth table has If-conditions: clause 1 (the Allow header of a 405) is judged per request - the routable
+		// methods are probed with the request's own headers; the OPTIONS filter's list is not judged there (how it treats
+		// conditions the request may or may not satisfy is not specified)
+		c17BehindCors = ti%8 == 5 || ti%8 == 2
+		c17CondTable = ti%5 == 3
+		go17.Conds = c17CondTable
 		if m := ti % 40; m == 14 || m == 15 {
 			// table shapes beyond what the small tables reach (long templates, 33-40 services, long media lists, many conditions, 130 routes)
 			ctx.SetAdd("scaled_table_shapes", rt.Scale(&go17, ti/40))
@@ -180,6 +186,12 @@ func c17(ctx *core.Ctx) {
 			}
 			if router == "jsr311" {
 				c.Router(restful.RouterJSR311{})
+			}
+			if c17BehindCors {
+				// the OPTIONS filter sits behind a CORS filter that allows every origin (on the twin too): OPTIONS requests
+				// without Access-Control-Request-Method pass through it, carrying its actual-request headers
+				cors := restful.CrossOriginResourceSharing{Container: c, AllowedMethods: []string{"GET"}, CookiesAllowed: true}
+				c.Filter(cors.Filter)
 			}
 			if withFilter {
 				c.Filter(c.OPTIONSFilter)
@@ -267,6 +279,8 @@ func c17(ctx *core.Ctx) {
 	}
 }
 
+var c17CondTable, c17BehindCors bool
+
 func c17Probe(ctx *core.Ctx, ti int, t *rt.Table, router string, twin, filtered *restful.Container, urls []string, universe []string, rr *core.Rand, pass int) {
 	{
 		for _, u := range urls {
@@ -278,8 +292,15 @@ func c17Probe(ctx *core.Ctx, ti int, t *rt.Table, router string, twin, filtered 
 			}
 			var probes []probe
 			hdr := map[string]string{}
-			if rr.Chance(1, 3) {
+			if rr.Chance(1, 3) || c17BehindCors {
 				hdr["Origin"] = "http://example.com" // the OPTIONS filter must leave every other method untouched, headers included
+			}
+			if c17CondTable {
+				for k := 0; k < 3; k++ {
+					if rr.Chance(1, 2) {
+						hdr[fmt.Sprintf("X-C%d", k)] = "1"
+					}
+				}
 			}
 			for _, m := range append(append([]string{}, universe...), "OPTIONS", "FOO") {
 				req := rt.Req{Method: m, Path: u, Hdr: hdr}
@@ -329,9 +350,13 @@ func c17Probe(ctx *core.Ctx, ti int, t *rt.Table, router string, twin, filtered 
 					}
 				}
 			}
+			if c17CondTable {
+				ctx.Count("urls_on_tables_with_conditions", 1)
+				continue
+			}
 			// OPTIONS through the filter
 			oreq := rt.Req{Method: "OPTIONS", Path: u, Hdr: hdr}
-			if rr.Chance(1, 3) {
+			if rr.Chance(1, 3) && !c17BehindCors {
 				// the OPTIONS filter answers for the URL, whatever method a browser announces
 				oh := map[string]string{"Access-Control-Request-Method": rr.Pick(append([]string{"FOO"}, universe...))}
 				for k, v := range hdr {
